@@ -851,7 +851,14 @@ func (o *ovsdbClient) transact(ctx context.Context, dbName string, skipChWrite b
 	}
 
 	if !skipChWrite && o.trafficSeen != nil {
-		o.trafficSeen <- struct{}{}
+		// Never block here: the caller holds rpcMutex and the receiver, the
+		// inactivity probe, may be waiting for that very lock in order to
+		// disconnect. A probe that is not listening right now re-arms its
+		// timer on its next turn anyway.
+		select {
+		case o.trafficSeen <- struct{}{}:
+		default:
+		}
 	}
 	return reply, nil
 }
